@@ -900,7 +900,9 @@ class AIOKafkaConsumer:
             offset = await self.committed(tp)
             committed_offsets[tp] = offset
             log.debug("Seeking to committed of partition %s %s", tp, offset)
-            if offset and offset > 0:
+            # 0 is a committed offset like any other (only None means that
+            # nothing was committed)
+            if offset is not None and offset >= 0:
                 self._fetcher.seek_to(tp, offset)
         return committed_offsets
 
